@@ -105,7 +105,7 @@ func classifyDeath(c *ev.Check, o *run.Outcome) bool {
 	return true
 }
 
-func plan(tier string, seed int64) []run.Batch {
+func planBase(tier string, seed int64) []run.Batch {
 	// generous watchdogs: CPU contention must not turn into a verdict; every
 	// server instance lives only until the next restart
 	var bs []run.Batch
@@ -1473,7 +1473,7 @@ func (h *hist) runSharedKey(variant string) {
 	step(h.opReports("normal"))
 }
 
-func child(b run.Batch, r *ev.Result) {
+func childBase(b run.Batch, r *ev.Result) {
 	switch b.Kind {
 	case "partialwrite":
 		childPartialWrite(b, r)
